@@ -162,7 +162,7 @@ def make_trace(prop, v, tier):
             "original_ops": len(v["ops"])}
 
 
-def minimise_and_confirm(prop, trace, tmpdir, tag):
+def minimise_and_confirm(prop, trace, tmpdir, tag, wall_s=420.0):
     """Minimise in a worker, then replay the result in another fresh worker. Returns (trace, confirmed, note)."""
     raw = os.path.join(tmpdir, "raw-%s.json" % tag)
     small = os.path.join(tmpdir, "min-%s.json" % tag)
@@ -170,9 +170,13 @@ def minimise_and_confirm(prop, trace, tmpdir, tag):
     with open(raw, "w") as f:
         f.write(cjson(trace))
     hashseed = trace.get("env", {}).get("PYTHONHASHSEED", "1")   # set iteration order is part of the execution
-    rc, err = spawn(["minimise", raw, small], hashseed, 900)
     candidate = trace
     note = None
+    if wall_s >= 20:
+        os.environ["DSW_VERIF_MINIMISE_WALL"] = str(int(wall_s))
+        rc, err = spawn(["minimise", raw, small], hashseed, wall_s + 600)
+    else:
+        rc, err = 1, "minimisation budget of this check is spent; trace reported unminimised"
     if rc == 0 and os.path.exists(small):
         with open(small) as f:
             candidate = json.load(f)
@@ -245,12 +249,16 @@ def check(prop, tier, seed=0, workers=None, n_runs=None, write_evidence=True):
             else:
                 new_by_sig.setdefault(signature(v["violation"]), []).append(v)
         reported, seen_final = [], {}
+        minimise_budget = float(os.environ.get("DSW_VERIF_MINIMISE_TOTAL", "600"))   # wall seconds per check
         for sig in sorted(new_by_sig)[:6]:
             group = sorted(new_by_sig[sig], key=lambda v: (len(cjson(v["ops"])), v["seed"]))
             v = group[0]
             trace = make_trace(prop, v, tier)
             trace["env"]["repo_tree"] = sorted(trees)[0] if trees else None
-            final, confirmed, note = minimise_and_confirm(prop, trace, tmp, "%d" % v["seed"])
+            t_min = time.time()
+            final, confirmed, note = minimise_and_confirm(prop, trace, tmp, "%d" % v["seed"],
+                                                          wall_s=min(300.0, minimise_budget))
+            minimise_budget = max(0.0, minimise_budget - (time.time() - t_min))
             if not confirmed:
                 sys.stderr.write("HARNESS-ERROR: violation at seed %d (%s) does not replay: %s\n" %
                                  (v["seed"], v["violation"]["what"], note))
